@@ -136,6 +136,10 @@ def run(F, rep, tier):
                 continue
             ncalls += 1
             key = "%s:%s.%s" % (nm, cr[0] if cr else "?", cr[1] if cr else "?")
+            in_loop = any(c[0] and c[0][0] == "loop-enter" for c in cond if isinstance(c[0], tuple))
+            if in_loop and not depends_on_element(recv) and not depends_on_element(arg):
+                rep.violation(r3, key + ":invariant-in-loop", "%s compares component %s inside an element loop although the comparison does not depend on the element: "
+                              "it is skipped when the collection is empty (e.g. function types without parameters)" % (nm, cr), "%s:%s" % (FILE, line))
             if cr != ca:
                 rep.violation(r2, key, "%s: recursive call relates component %s of one type with component %s of the other" % (nm, cr, ca), "%s:%s" % (FILE, line))
                 continue
